@@ -41,6 +41,8 @@ type Disk struct {
 	// their file numbers and serve stale cached blocks (timing dependent).
 	Bookkeeping bool
 	nbatch      int
+	// OnPCS: called once at the start of the next PutChangeSet (sequential mode: the flush window of an asynchronous Persist)
+	OnPCS func()
 
 	Gets, Seeks, Batches, GCs, Errors int
 }
@@ -53,6 +55,10 @@ func (d *Disk) Get(k []byte) ([]byte, error) {
 }
 
 func (d *Disk) PutChangeSet(puts map[string][]byte, stores map[string][]byte) error {
+	if f := d.OnPCS; f != nil {
+		d.OnPCS = nil
+		f()
+	}
 	if d.env != nil && d.ParkPCS {
 		d.env.inPCS = true
 		d.env.park("f", "pcs")
